@@ -96,7 +96,7 @@ type Model struct {
 	Signed      map[string]SignedRec
 	SignedOrder []string
 	// outputs of requests the mint refused (never handed a signature, unless a later request got them signed)
-	Refused []cashu.BlindedMessage
+	Refused []Out
 	Issued      map[string]uint64 // per keyset: sum of signatures handed out
 	Redeemed    map[string]uint64 // per keyset: sum of proofs consumed
 	Steps       int
@@ -317,7 +317,7 @@ func (w *World) MintTokens(q *MMintQuote, outs []Out, signature string) (cashu.B
 	sigs, err := w.Mint.MintTokens(nut04.PostMintBolt11Request{Quote: q.ID, Outputs: msgs, Signature: signature})
 	w.M.Steps++
 	if err != nil {
-		w.noteRefused(msgs)
+		w.noteRefused(outs)
 		return nil, err
 	}
 	var total uint64
@@ -356,7 +356,7 @@ func (w *World) RecordSignatures(op string, outs []Out, sigs cashu.BlindedSignat
 		if s.Amount != o.Amount {
 			w.Flag("C02", "signature_amount_differs|"+op, "output %d amount %d signed as %d", i, o.Amount, s.Amount)
 		}
-		if s.Id != w.ActiveID {
+		if s.Id != w.ActiveID && !strings.HasPrefix(op, "restore") {
 			w.Flag("C09", "signed_on_non_active_keyset|"+op, "signature id %s, active %s", s.Id, w.ActiveID)
 		}
 		if _, dup := w.M.Signed[o.Msg.B_]; dup {
@@ -440,7 +440,7 @@ func (w *World) Swap(inputs cashu.Proofs, outs []Out) (cashu.BlindedSignatures, 
 	sigs, err := w.Mint.Swap(inputs, Msgs(outs))
 	w.M.Steps++
 	if err != nil {
-		w.noteRefused(Msgs(outs))
+		w.noteRefused(outs)
 		return nil, err
 	}
 	var inSum, outSum uint64
@@ -461,10 +461,10 @@ func (w *World) Swap(inputs cashu.Proofs, outs []Out) (cashu.BlindedSignatures, 
 	return sigs, nil
 }
 
-func (w *World) noteRefused(msgs cashu.BlindedMessages) {
-	for _, bm := range msgs {
+func (w *World) noteRefused(outs []Out) {
+	for _, o := range outs {
 		if len(w.M.Refused) < 256 {
-			w.M.Refused = append(w.M.Refused, bm)
+			w.M.Refused = append(w.M.Refused, o)
 		}
 	}
 }
